@@ -23,7 +23,7 @@ REPO_SRCS = [
     "src/POMDP/Utils.cpp", "src/POMDP/Algorithms/AMDP.cpp", "src/POMDP/Algorithms/IncrementalPruning.cpp",
     "src/POMDP/Algorithms/Witness.cpp", "src/POMDP/Algorithms/LinearSupport.cpp", "src/POMDP/Algorithms/SARSOP.cpp",
     "src/POMDP/Algorithms/PBVI.cpp", "src/POMDP/Algorithms/PERSEUS.cpp", "src/POMDP/Algorithms/BlindStrategies.cpp",
-    "src/POMDP/Algorithms/FastInformedBound.cpp", "src/POMDP/Algorithms/GapMin.cpp",
+    "src/POMDP/Algorithms/FastInformedBound.cpp", "src/POMDP/Algorithms/GapMin.cpp", "src/POMDP/Algorithms/QMDP.cpp",
     "src/Utils/Polytope.cpp", "src/Utils/Probability.cpp", "src/Utils/Combinatorics.cpp", "src/Utils/LP/LpSolveWrapper.cpp",
     "src/Factored/Utils/Core.cpp", "src/Factored/Bandit/Algorithms/Utils/VariableElimination.cpp",
     "src/Factored/Bandit/Algorithms/Utils/LocalSearch.cpp",
@@ -43,7 +43,10 @@ RULE = ("every case runs the SAME call under test 2-3 times in one process (fork
         "problem and twice on the same problem (dense/sparse/mixed), complete returned tuples; fg = random FactorGraph programs (getFactor/write data/erase/reset/copy over 1-3 "
         "graphs) with empty vs. stale-filled pool, also compared with the extracted model; ve, rils = maximiser + graph "
         "reuse; seeded = POMCP / MCTS / PBVI / PERSEUS twice with the same root seed; amdp, amdpm = discretizer / whole "
-        "AMDP in a fresh child vs. after another AMDP; carrier = one case per hidden-state carrier found by scanning "
+        "AMDP in a fresh child vs. after another AMDP; heap = LinearSupport / IncrementalPruning / Witness / PBVI / PERSEUS / QMDP / "
+        "FastInformedBound / BlindStrategies on mirror-symmetric 2-state POMDPs (tiger and random relatives, exact ties) in forked "
+        "children: alone vs. after another solve of a differently sized problem, after a solve of the same problem with another "
+        "horizon, and after two malloc/free churn patterns, complete ValueFunction incl. order, actions and observation links; carrier = one case per hidden-state carrier found by scanning "
         "/repo's sources now. non-trivial = the unrelated histories really differ (different prefix lengths, first "
         "problem of a different size, stale nodes actually recycled, different S or bucket count)")
 TRUSTED_BASE = [
@@ -520,6 +523,44 @@ def scan_object_state(repo=None):
     return out
 
 
+# ---------------------------------------------------------------- ordering / keying by address
+# A comparator, sort key or hash key that uses an object's ADDRESS makes iteration / extraction order a
+# function of the heap layout, i.e. of every unrelated allocation made before (glibc reuses freed
+# chunks in LIFO order).  Purely syntactic patterns, on comment- and string-stripped text:
+_ADDR_PATTERNS = [
+    ("address-comparison", re.compile(r"(?<![&\w])&\s*\(?\s*\*?\s*[\w.:\[\]]+(?:\s*(?:->|\.)\s*\w+)*\s*\)?\s*(?:<=?|>=?)\s*&(?!&)\s*\(?\s*\*?\s*[\w(]")),
+    ("pointer-comparator", re.compile(r"std\s*::\s*(?:less|greater|less_equal|greater_equal)\s*<[^<>;]*\*\s*(?:const\s*)?>")),
+    ("pointer-to-integer", re.compile(r"reinterpret_cast\s*<\s*(?:const\s+)?(?:std\s*::\s*)?(?:u?intptr_t|size_t|unsigned\s+long(?:\s+long)?|long)\s*>|\(\s*(?:std\s*::\s*)?u?intptr_t\s*\)")),
+    ("pointer-keyed-container", re.compile(r"std\s*::\s*(?:unordered_)?(?:multi)?(?:set|map)\s*<\s*(?:const\s+)?[\w:]+(?:\s*<[^<>;]*>)?\s*(?:const\s*)?\*")),
+    ("pointer-hash", re.compile(r"(?:std|boost)\s*::\s*hash\s*<[^<>;]*\*\s*(?:const\s*)?>")),
+    ("smart-pointer-comparison", re.compile(r"\.\s*get\s*\(\s*\)\s*(?:<=?|>=?)\s*[\w&(]")),
+]
+
+
+def scan_address_ordering(repo=None):
+    """-> sorted list of (rel file, line, pattern kind, matched text)"""
+    repo = repo or os.environ.get("VERIF_REPO", "/repo")
+    out = []
+    for top in ("include", "src"):
+        for d, _, fs in os.walk(os.path.join(repo, top)):
+            if os.sep + "Python" in d:
+                continue
+            for f in sorted(fs):
+                if f.endswith((".hpp", ".cpp", ".h", ".cc", ".tpp", ".ipp")):
+                    p = os.path.join(d, f)
+                    src = _strip(open(p, errors="replace").read())
+                    for kind, rx in _ADDR_PATTERNS:
+                        for m in rx.finditer(src):
+                            txt = re.sub(r"\s+", "", m.group(0))[:60]
+                            out.append((os.path.relpath(p, repo), src.count("\n", 0, m.start()) + 1, kind, txt))
+    return sorted(set(out))
+
+
+# address-dependent orderings that are known and argued harmless: "<file>::<kind>::<text>" -> why
+ADDRESS_ORDER_OK = {
+}
+
+
 def scan_repo(repo=None):
     repo = repo or os.environ.get("VERIF_REPO", "/repo")
     res = []
@@ -566,6 +607,9 @@ def inventory_cases():
     found = scan_repo()
     out = []
     seen = set()
+    for (rel, line, kind, txt) in scan_address_ordering():
+        ok = (rel + "::" + kind + "::" + txt) in ADDRESS_ORDER_OK
+        out.append("carrier %s %d %s address-ordering-%s %s %s" % (rel, line, txt, kind, "covered" if ok else "unlisted", "address-order-argued" if ok else "UNLISTED"))
     for (rel, cls, member, why) in scan_object_state():
         key = cls + "::" + member
         ok = key in CARRIED
@@ -753,6 +797,57 @@ def g_pbreuse(rng):
     return "pbreuse %s %d %s %s" % (rng.choice(["pbvi", "perseus"]), rng.randrange(2 ** 31), fmt_pomdp(m1), fmt_pomdp(m2))
 
 
+def _fmt_sym(S, A, O, g, T, R, Ob):
+    toks = [str(S), str(A), str(O), g if isinstance(g, str) else q(g)]
+    for a in range(A):
+        for s in range(S):
+            toks += [q(x) for x in T[a][s]]
+    for s in range(S):
+        toks += [q(x) for x in R[s]]
+    for a in range(A):
+        for s1 in range(S):
+            toks += [q(x) for x in Ob[a][s1]]
+    return " ".join(toks)
+
+
+def sym_pomdp(rng):
+    """mirror-symmetric 2-state POMDPs (swap the states, the mirrored actions and the observations): mirror-image
+    beliefs have bitwise equal values, so exact ties occur everywhere (tiger and random relatives, dyadic)"""
+    g = rng.choice([F(1, 2), F(3, 4), F(7, 8), F(15, 16), F(1), hexf(0.95), hexf(0.9)])
+    half = [F(1, 2), F(1, 2)]
+    if rng.random() < 0.5:
+        p = rng.choice([F(3, 4), F(7, 8), F(5, 8)])
+        c = -rng.choice([F(1), F(2), F(1, 2)]); good = rng.choice([F(10), F(8), F(4)]); bad = -rng.choice([F(100), F(16), F(20)])
+        T = [[[F(1), F(0)], [F(0), F(1)]], [half, half], [half, half]]
+        R = [[c, bad, good], [c, good, bad]]
+        Ob = [[[p, 1 - p], [1 - p, p]], [half, half], [half, half]]
+        return _fmt_sym(2, 3, 2, g, T, R, Ob)
+    # random action + its mirror image (+ optionally a self-symmetric action)
+    def row(n):
+        k = rng.choice([1, 2, 3]); tot = 1 << k
+        a = rng.randint(0, tot); return [F(a, tot), F(tot - a, tot)]
+    Ta = [row(2), row(2)]; Oa = [row(2), row(2)]; Ra = [F(rng.randint(-8, 8)), F(rng.randint(-8, 8))]
+    mir = lambda M: [[M[1][1], M[1][0]], [M[0][1], M[0][0]]]
+    T = [Ta, mir(Ta)]; Ob = [Oa, mir(Oa)]; R = [[Ra[0], Ra[1]], [Ra[1], Ra[0]]]
+    if rng.random() < 0.6:
+        t = row(2); o = row(2); r = F(rng.randint(-4, 4))
+        T.append([t, [t[1], t[0]]]); Ob.append([o, [o[1], o[0]]]); R[0].append(r); R[1].append(r)
+    return _fmt_sym(2, len(T), 2, g, T, R, Ob)
+
+
+def g_heap(rng, alg=None):
+    alg = alg or rng.choice(["ls", "ls", "ls", "ip", "wit", "pbvi", "perseus", "qmdp", "fib", "blind"])
+    m = sym_pomdp(rng)
+    while alg == "perseus" and m.split()[3] == "1":       # PERSEUS rejects an undiscounted model
+        m = sym_pomdp(rng)
+    mp = gen_pomdp(rng, 3, rng.choice([1, 2]), rng.choice([2, 3]))
+    if alg in ("ls", "ip", "wit"):
+        h = rng.choice([3, 4, 4]); hp = rng.choice([2, 3])
+    else:
+        h = rng.choice([3, 5, 8]); hp = rng.choice([2, 4, 7])
+    return "heap %s %d %d %s %s" % (alg, h, hp, fmt_pomdp(mp), m)
+
+
 def g_seeded(rng):
     alg = rng.choice(["pomcp", "mcts", "pbvi", "perseus"])
     S = rng.choice([2, 3]); m = gen_pomdp(rng, S, rng.choice([2, 3]), 2)
@@ -824,7 +919,7 @@ def gen(rng, tier):
     out = []
     plan = [(lambda: g_prog(rng), 90), (lambda: g_fg(rng), 90), (lambda: g_amdp(rng), 24), (lambda: g_amdpm(rng), 8),
             (lambda: g_vi(rng, "vi"), 40), (lambda: g_vi(rng, "pi"), 16), (lambda: g_pomdp(rng), 24),
-            (lambda: g_sarsop(rng), 16), (lambda: g_gapmin(rng), 5), (lambda: g_pbreuse(rng), 12), (lambda: g_seeded(rng), 12), (lambda: g_ve(rng, "ve"), 30), (lambda: g_ve(rng, "rils"), 16)]
+            (lambda: g_sarsop(rng), 16), (lambda: g_gapmin(rng), 5), (lambda: g_pbreuse(rng), 12), (lambda: g_seeded(rng), 12), (lambda: g_heap(rng), 48), (lambda: g_ve(rng, "ve"), 30), (lambda: g_ve(rng, "rils"), 16)]
     for f, n in plan:
         for _ in range(n * mult):
             out.append(f())
